@@ -169,6 +169,7 @@ type scannerTr struct {
 	jerrConsts map[string]string
 	events     map[string]bool
 	depth      int
+	repo       string
 }
 
 var eventNames = []string{"KeywordBegin", "KeywordEnd", "ParameterBegin", "ParameterEnd",
@@ -196,6 +197,7 @@ func genScanner(repo string, jerrConsts map[string]string) string {
 		stateIdx:   map[string]int{},
 		jerrConsts: jerrConsts,
 		events:     map[string]bool{},
+		repo:       repo,
 	}
 	t.bconst = byteConsts(t.files)
 	for _, e := range eventNames {
@@ -242,8 +244,9 @@ func genScanner(repo string, jerrConsts map[string]string) string {
 	}
 	b.WriteString("].\n\n")
 	// helper predicates translated from step-helpers.go
-	b.WriteString("Definition is_newline_cond : cond := " + t.boolFuncCond("IsNewLine") + ".\n")
-	b.WriteString("Definition is_whitespace_cond : cond := " + t.boolFuncCond("isWhitespace") + ".\n")
+	nlBytes, wsBytes := byteClasses(t.repo)
+	b.WriteString("Definition is_newline_cond : cond := " + byteSetCond(nlBytes) + ".\n")
+	b.WriteString("Definition is_whitespace_cond : cond := " + byteSetCond(wsBytes) + ".\n")
 	fmt.Fprintf(&b, "Definition eof_byte : N := %d.\n", t.bconst["EOF"])
 	fmt.Fprintf(&b, "Definition initial_state : state := st_%s.\n", t.initialState())
 	return b.String()
@@ -283,9 +286,6 @@ func (t *scannerTr) initialState() string {
 // Functions whose bodies the hand-written model mirrors; pinned by normalised source text.
 // A change here is reported as a broken tie (the model's counterpart must be re-validated).
 var pinned = map[string]string{
-	"caseWhitespace":    "func caseWhitespace(c byte) byte {\n\tif isWhitespace(c) {\n\t\treturn c\n\t} else {\n\t\treturn otherByte(c)\n\t}\n}",
-	"caseNewLine":       "func caseNewLine(c byte) byte {\n\tif IsNewLine(c) {\n\t\treturn c\n\t} else {\n\t\treturn otherByte(c)\n\t}\n}",
-	"otherByte":         "func otherByte(b byte) byte {\n\tif b == 255 {\n\t\treturn 254\n\t} else {\n\t\treturn b + 1\n\t}\n}",
 	"readSchemaWithJsc": "func (s *Scanner) readSchemaWithJsc() (uint, *jerr.JApiError) {\n\tfc := s.file.Content()\n\tfile := fs.NewFile(\"\", fc.Sub(s.curIndex, fc.LenIndex()))\n\n\tl, err := jschema.FromFile(file).Len()\n\tif err != nil {\n\t\terr := kit.ConvertError(file, err)\n\t\treturn 0, s.japiError(err.Message(), s.curIndex+bytes.Index(err.Index()))\n\t}\n\treturn l, nil\n}",
 	"readEnumWithJsc":   "func (s *Scanner) readEnumWithJsc() (uint, *jerr.JApiError) {\n\tfc := s.file.Content()\n\tfile := fs.NewFile(\"\", fc.Sub(s.curIndex, fc.LenIndex()))\n\n\tl, err := enum.FromFile(file).Len()\n\tif err != nil {\n\t\terr := kit.ConvertError(file, err)\n\t\treturn 0, s.japiError(err.Message(), s.curIndex+bytes.Index(err.Index()))\n\t}\n\treturn l, nil\n}",
 }
@@ -303,6 +303,18 @@ func (t *scannerTr) checkPinned() {
 			failf(fd, "function %s differs from the form the model mirrors:\n%s", name, got)
 		}
 	}
+}
+
+// byteSetCond: c is one of the bytes, as a condition of the action language (in ascending order)
+func byteSetCond(bs []int) string {
+	if len(bs) == 0 {
+		return "CNot CTrue"
+	}
+	r := fmt.Sprintf("CByte %d", bs[len(bs)-1])
+	for i := len(bs) - 2; i >= 0; i-- {
+		r = fmt.Sprintf("COr (CByte %d) (%s)", bs[i], r)
+	}
+	return r
 }
 
 // boolFuncCond translates `func f(c byte) bool { return <cond> }`.
